@@ -46,7 +46,8 @@ func sameInstant(i, j int) bool { return anchorPool[i].Equal(anchorPool[j]) }
 type spec struct {
 	sb, pb, ob byte
 	pk, pa     int // predicate kind (0 immutable, 1 temporal) and anchor index
-	ok         int // object kind: 0 node, 1 text literal, 2 immutable predicate (only with OBJPRED=1)
+	ok         int // object kind: 0 node, 1 text literal, 2 immutable predicate (only with OBJPRED=1), 3 temporal predicate anchored at anchorPool[oa]
+	oa         int
 	t          *triple.Triple
 }
 
@@ -98,7 +99,10 @@ func mkPredicate(id byte, kind, anchor int) *predicate.Predicate {
 	return p
 }
 
-func mkObject(kind int, b byte) *triple.Object {
+func mkObject(kind int, b byte, oa int) *triple.Object {
+	if kind == 3 {
+		return triple.NewPredicateObject(mkPredicate(b, 1, oa))
+	}
 	if kind == 0 {
 		return triple.NewNodeObject(mkNode(b))
 	}
@@ -113,7 +117,7 @@ func mkObject(kind int, b byte) *triple.Object {
 }
 
 func (sp *spec) build() *triple.Triple {
-	t, err := triple.New(mkNode(sp.sb), mkPredicate(sp.pb, sp.pk, sp.pa), mkObject(sp.ok, sp.ob))
+	t, err := triple.New(mkNode(sp.sb), mkPredicate(sp.pb, sp.pk, sp.pa), mkObject(sp.ok, sp.ob, sp.oa))
 	if err != nil {
 		panic(err)
 	}
@@ -127,6 +131,9 @@ func (sp *spec) eq(o *spec) bool {
 		return false
 	}
 	if sp.pk == 1 && !sameInstant(sp.pa, o.pa) {
+		return false
+	}
+	if sp.ok == 3 && !sameInstant(sp.oa, o.oa) {
 		return false
 	}
 	return verif.And(sp.sb == o.sb, verif.And(sp.pb == o.pb, sp.ob == o.ob))
